@@ -26,6 +26,7 @@ What is proved, and from what:
   `known_findings.d/C11.json` as fixed; the harness replays them.
 -/
 import RtcModel.Theorems.C02
+import RtcModel.Lemmas.DtlsFlights
 
 namespace RtcModel.Theorems.C11
 open RtcModel.Generated RtcModel.DtlsRecord RtcModel.DtlsHs RtcModel.Theorems.C02
@@ -323,6 +324,57 @@ theorem converge_partial_fragments_reassemble (C : Crypto) (L : Loc) (e : Ep) (t
     rw [if_neg (by simp [withCtx, appendFrag, hr])]
     rw [if_neg (by simp [withCtx, appendFrag, hr])]
     simp [withCtx, appendFrag, hr, rawMsg, encodeHs]
+
+/-! ### liveness and agreement in the closed system, for every fault schedule
+
+`RtcModel/DtlsFlights.lean` closes the model: a client and a server endpoint and a network that may
+deliver *any datagram either side ever emitted*, to the peer, at any time, any number of times, or
+never (loss, duplication, reordering, delay — `Act.toS i`, `Act.toC i`), and fire either retransmission
+timer at any time (`tickC`, `tickS`).  A schedule is any list of such actions.  The cryptography is
+interpreted *freely* (`W0`, Dolev–Yao style: distinct tokens for message bodies, decoders accept exactly
+the peer's tokens, ECDH succeeds exactly for the two genuine shares, verify_data and the AEAD tag are
+injective-by-construction functions of their arguments), so no test in the handshake succeeds or fails
+by accident of concrete values; the control flow is that of any consistent real instantiation.  The set
+of reachable states (`reach0`, 9 states — out-of-order datagrams are ignored, so the adversary can only
+delay) is computed by the kernel and shown closed; the theorems then hold for schedules of any length. -/
+
+open RtcModel.DtlsFlights in
+/-- **converge_if_delivered** (closed system, free crypto): after *any* fault schedule whatsoever, two
+fair rounds — both timers tick, then everything each side ever emitted is delivered in emission order —
+leave both endpoints Connected.  Two rounds are two seconds of the 1 s retransmission timer, far inside
+the 30 s handshake deadline. -/
+theorem converge_if_delivered (acts : List Act) :
+    bothConnected (fairRound W0 (fairRound W0 ((Sys.init W0).run W0 acts))) = true := by
+  have hmem := closed_run reach0_closed acts (Sys.init W0) reach0_init
+  have := reach0_good
+  rw [List.all_eq_true] at this
+  exact this _ hmem
+
+open RtcModel.DtlsFlights in
+/-- **agreement in the closed system** (no hypothesis needed here: the binding of verify_data to its
+inputs holds by construction in the free interpretation): after any fault schedule, if both endpoints
+are Connected they hold the same key block *and the same SRTP profile*; and no schedule of an honest
+network drives an endpoint to Failed or Closed. -/
+theorem closed_system_agreement (acts : List Act) :
+    let σ := (Sys.init W0).run W0 acts
+    ((σ.c.conn = .connected ∧ σ.s.conn = .connected) → σ.c.connKeys = σ.s.connKeys ∧ σ.c.connSrtp = σ.s.connSrtp ∧ σ.c.connKeys.isSome = true) ∧
+    σ.c.conn ≠ .failed ∧ σ.s.conn ≠ .failed ∧ σ.c.conn ≠ .closed ∧ σ.s.conn ≠ .closed := by
+  intro σ
+  have hmem : σ ∈ reach0 := closed_run reach0_closed acts (Sys.init W0) reach0_init
+  have h1 := reach0_agree
+  have h2 := reach0_no_failure
+  rw [List.all_eq_true] at h1 h2
+  have a := h1 σ hmem
+  have b := h2 σ hmem
+  simp only [Bool.or_eq_true, Bool.not_eq_true', Bool.and_eq_true, beq_iff_eq, decide_eq_true_eq, bne_iff_ne, ne_eq,
+    Bool.and_eq_false_iff, beq_eq_false_iff_ne] at a b
+  refine ⟨?_, b.1.1.1.1.1, b.1.1.1.1.2, b.1.1.1.2, b.1.1.2⟩
+  intro ⟨hc, hs⟩
+  rcases a with a | a
+  · rcases a with a | a
+    · exact absurd hc a
+    · exact absurd hs a
+  · exact ⟨a.1.1, a.1.2, a.2⟩
 
 /-! ### non-vacuity / recovery on a concrete instance -/
 
